@@ -11,7 +11,7 @@ res={}
 for n in names:
     m=re.search(r'%s\.%s\s*\n\s*:\s(.*?)(?=\n\S|\nCoq <|\Z)'%(re.escape(mod),re.escape(n)),out,re.S)
     if not m:
-        m=re.search(r'%s\s*\n\s*:\s(.*?)(?=\n\S|\nCoq <|\Z)'%(re.escape(n)),out,re.S)
+        m=re.search(r'(?<![\w.])%s\s*\n\s*:\s(.*?)(?=\n\S|\nCoq <|\Z)'%(re.escape(n)),out,re.S)
     res[n]=m.group(1).strip() if m else None
 for n in names:
     if res[n] is None: print("(* MISSING %s *)"%n); continue
